@@ -1348,6 +1348,16 @@ namespace sim
 	} // aux
 
 	void SIMULATOR_DECL dump_network_graph(simulation const& s, const std::string& filename);
+
+#ifdef LIBSIMULATOR_VERIF
+	// verification hook (off in normal builds): when set, simulation::run()
+	// calls it at every boundary between two events
+	namespace verif
+	{
+		enum step_t { after_handler = 1, before_advance = 2 };
+		extern SIMULATOR_DECL void (*step_hook)(int);
+	}
+#endif
 }
 
 #ifdef _MSC_VER
